@@ -47,11 +47,15 @@ impl Lift for DynamicArrayIndex {
             match data {
                 RSVD::StorageWrite { key, value } => Some(RSVD::StorageWrite {
                     key:   key.clone().transform_data(lift_dyn_array_accesses),
-                    value: value.clone().transform_data(lift_dyn_array_accesses),
+                    // Only keys locate storage: a hash that merely occurs in a value does not access
+                    // an array, but the value may contain further storage accesses of its own
+                    value: value.clone().transform_data(guard_dyn_array_accesses),
                 }),
                 RSVD::SLoad { key, value } => Some(RSVD::SLoad {
                     key:   key.clone().transform_data(lift_dyn_array_accesses),
-                    value: value.clone().transform_data(lift_dyn_array_accesses),
+                    // Only keys locate storage: a hash that merely occurs in a value does not access
+                    // an array, but the value may contain further storage accesses of its own
+                    value: value.clone().transform_data(guard_dyn_array_accesses),
                 }),
                 RSVD::UnwrittenStorageValue { key } => Some(RSVD::UnwrittenStorageValue {
                     key: key.clone().transform_data(lift_dyn_array_accesses),
